@@ -141,6 +141,7 @@ structure Take (V : Type) where
   id : Nat
   loc : Loc
   val : V
+deriving DecidableEq, Repr
 
 /-- The record of one executed plan step. -/
 structure StepRec (V : Type) where
@@ -148,6 +149,7 @@ structure StepRec (V : Type) where
   op : Nat
   inPlace : Bool
   takes : List (Take V)
+deriving DecidableEq, Repr
 
 abbrev Temps (V : Type) := List (Nat × Origin × V)
 
